@@ -63,6 +63,30 @@ def trees(chk, n_sent, tag='C13', n_deep=0):
             except Exception:
                 continue
             yield d, dict(src='c12shape', text=text), t, rng
+        # every subset of the optional clauses of a SELECT (and of UPDATE / DELETE), each with an expression of its own: a
+        # walker branch that is reached only in the presence of ANOTHER clause (HAVING only under GROUP BY, …) is not left
+        # to the random streams
+        import itertools as _it
+        opt = [('WHERE', 'w1 > ?'), ('GROUP BY', 'g1, g2'), ('HAVING', 'count(h1) > (SELECT max(x) FROM int.t2)'),
+               ('ORDER BY', 'o1 DESC'), ('LIMIT', '5'), ('OFFSET', '2')]
+        for k in range(len(opt) + 1):
+            for sub in _it.combinations(opt, k):
+                for head in ('SELECT a, f(b) FROM int.t1', 'SELECT DISTINCT a FROM int.t1 AS x JOIN int.t3 AS y ON x.i = y.i',
+                             'WITH w AS (SELECT 1 FROM int.t4) SELECT a FROM w'):
+                    text = head + ''.join(' %s %s' % c for c in sub)
+                    try:
+                        t = parse_sql(text, d)
+                    except Exception:
+                        continue
+                    yield d, dict(src='clauses', text=text), t, rng
+        for text in ('UPDATE int.t SET a = ?', 'UPDATE int.t SET a = ? WHERE b = (SELECT 1 FROM int.u)', 'DELETE FROM int.t',
+                     'DELETE FROM int.t WHERE b IN (SELECT c FROM int.u)', 'INSERT INTO int.t (a) SELECT b FROM int.u WHERE c = ?',
+                     'SELECT a FROM int.t UNION SELECT b FROM int.u ORDER BY 1 LIMIT 3'):
+            try:
+                t = parse_sql(text, d)
+            except Exception:
+                continue
+            yield d, dict(src='clauses', text=text), t, rng
         # depth stream: trees nested 300 … 440 levels (the theorems are about every tree; the unchanged walker needs one
         # interpreter frame per level)
         drng = common.rng_for(chk.seed, '%s/deep/%s' % (tag, d))
